@@ -37,6 +37,7 @@ type Profile struct {
 	SmallSetsP float64 // probability of a tiny key set (C13)
 	Sizes      []int   // C16: explicit collection sizes to build
 	recordIO   bool
+	index      int
 }
 
 func baseWeights() map[string]float64 {
@@ -521,6 +522,7 @@ func (g *Gen) setup() {
 		if len(p.Sizes) > 0 && i == 0 {
 			// C16: build a collection of an exact size first
 			n := r.Intn(81)
+			sweep := p.index > 0 && p.index <= 3*81
 			switch x := r.Float(); {
 			case x < 0.12:
 				n = p.Sizes[r.Intn(len(p.Sizes))]
@@ -528,6 +530,10 @@ func (g *Gen) setup() {
 				n = r.Intn(6)
 			case x < 0.35:
 				n = r.Range(81, 700)
+			}
+			if sweep {
+				// the first 3 x 81 runs of a check cover every size 0..80
+				n = (p.index - 1) % 81
 			}
 			cc := &g.colls[0]
 			keys := map[string]bool{}
